@@ -130,6 +130,26 @@ func (g *G) Hostile(targets []ref.Rule, known []ref.Pred, checks bool) ref.Block
 	return b
 }
 
+// failingQuery builds a query over a fact of the pool whose expression is ill-typed for every
+// match: 1 == $v + 1 with $v bound to a string, date, byte array or boolean.
+func (g *G) failingQuery(pool []ref.Pred) (ref.Rule, bool) {
+	for _, pi := range g.R.Perm(len(pool)) {
+		f := pool[pi]
+		for j, t := range f.Terms {
+			if t.K != ref.KStr && t.K != ref.KDate && t.K != ref.KBytes && t.K != ref.KBool {
+				continue
+			}
+			body := ref.Pred{Name: f.Name}
+			for i := range f.Terms {
+				body.Terms = append(body.Terms, ref.Var(fmt.Sprintf("f%d", i)))
+			}
+			e := ref.Bin("==", ref.Leaf(ref.Int(1)), ref.Bin("+", ref.Leaf(ref.Var(fmt.Sprintf("f%d", j))), ref.Leaf(ref.Int(1))))
+			return ref.Rule{Head: ref.Pred{Name: "query"}, Body: []ref.Pred{body}, Exprs: []ref.Expr{e}}, true
+		}
+	}
+	return ref.Rule{}, false
+}
+
 // AuthzFor builds authorizer content whose checks and policies have a fair
 // chance of being satisfied by the given facts.
 func (g *G) AuthzFor(known []ref.Pred, maxFacts, maxRules, maxChecks, maxPolicies int) ref.Authz {
@@ -171,6 +191,18 @@ func (g *G) AuthzFor(known []ref.Pred, maxFacts, maxRules, maxChecks, maxPolicie
 			a.Checks = append(a.Checks, ref.Check{Queries: []ref.Rule{{Head: ref.Pred{Name: "query"}, Body: []ref.Pred{h}}}})
 		} else {
 			a.Policies = append(a.Policies, ref.Policy{Allow: g.R.Intn(2) == 0, Queries: []ref.Rule{{Head: ref.Pred{Name: "query"}, Body: []ref.Pred{h}}}})
+		}
+	}
+	if g.R.Intn(6) == 0 {
+		// a query that fails uniformly (ill-typed arithmetic on every match, with an operand still
+		// pending when it fails), evaluated just before sound ones: as the first policy, or as the first
+		// alternative of the first check
+		if q, ok := g.failingQuery(pool); ok {
+			if len(a.Checks) > 0 && g.R.Intn(2) == 0 {
+				a.Checks[0].Queries = append([]ref.Rule{q}, a.Checks[0].Queries...)
+			} else {
+				a.Policies = append(a.Policies, ref.Policy{Allow: g.R.Intn(2) == 0, Queries: []ref.Rule{q}})
+			}
 		}
 	}
 	for i := g.R.Intn(maxPolicies + 1); i > 0; i-- {
